@@ -80,7 +80,7 @@ def shard_country(arg):
     g = gen()
     o = oracle()
     quick = tier == "quick"
-    variants = ["random"] * (3 if quick else 12) + ["min", "max"] + ([] if quick else ["letters", "digits"] * 2)
+    variants = ["random"] * (3 if quick else 12) + ["min", "max", "letters"] + ([] if quick else ["letters", "digits", "digits"])
     bases = []
     for v in variants:
         t = g.iban(cc, rng, v)
